@@ -9,12 +9,13 @@ import ast, os
 from py2lean import Refuse
 
 SRC = 'lentil/util.py'
-TOTAL = 'np.sum(np.abs(array) ** 2)'
+# the total power Σ|array|², squared in floating point (fix 8e13caf); the older spelling is accepted too
+TOTALS = ('np.sum(np.square(np.abs(array), dtype=float))', 'np.sum(np.abs(array) ** 2)')
 
 def _u(n): return ast.unparse(n)
 
 def _factor(e):
-    if _u(e) == TOTAL: return 'total'
+    if _u(e) in TOTALS: return 'total'
     if isinstance(e, ast.Name) and e.id == 'power': return 'power'
     if isinstance(e, ast.Constant) and isinstance(e.value, (int, float)) and not isinstance(e.value, bool) and float(e.value) == int(e.value):
         return f'(ofInt {int(e.value)})'
